@@ -154,3 +154,44 @@ for _f, _q, _n, _c in ((F_PT, '_r_value_iterator', x_nr, x_cut), (F_ET, '_rho_va
         invariants={0: lambda v, old, _n=_n, _c=_c: [v.yielded == grid_seq(_c(v.tabulation), _n(v.tabulation), v._i0)]},
         ghost={'yielded': T.Real}, carries=['post', 'preserve/0'], props=['C19', 'C11'],
         note='verified for the EAM spreadsheet tabulation object (nr, cutoff, nrho, cutoff_rho are its read-only properties of the constructor arguments); the pair spreadsheet passes an object with the same two properties'))
+
+# ---------------------------------------------------------------- Excel_FinnisSinclair_EAMTabulation._add_eam_density (C04): the column headed "A->B"
+from pyvc.symexec import str_of_text, keys_list_fn
+FSE = eam('EAMPotential')
+def fs_label(a, b): return str_of_text(tok("{}->{}", a, b))          # the text "{}->{}".format(a, b) as a key
+keys_of = keys_list_fn(T.Str)
+label_central = z3.Function('label_central', StrS, StrS); label_neighbour = z3.Function('label_neighbour', StrS, StrS)    # ghost projections of a label "A->B"
+def _fs_pre(v):
+    es = x_eams(v.self); i, j = z3.Ints('i!fp j!fp'); a, b, a2, b2 = z3.Strings('a!fp b!fp a2!fp b2!fp')
+    return [x_nr(v.self) >= 2,
+            # the potentials are of pairwise different species, and the label text determines the pair (labels do not contain "->")
+            z3.ForAll([i, j], z3.Implies(z3.And(0 <= i, i < j, j < z3.Length(es)), FSE['species'](es[i]) != FSE['species'](es[j]))),
+            # (stated through the two projections of a label: injectivity follows by congruence, with one-term triggers)
+            z3.ForAll([a, b], z3.And(label_central(fs_label(a, b)) == a, label_neighbour(fs_label(a, b)) == b), patterns=[fs_label(a, b)])]
+def _fs_done(d, es, k):
+    """every declared density of the first k potentials is in the dictionary under the label of its pair"""
+    i = z3.Int('i!fd'); b = z3.String('b!fd')
+    return [z3.ForAll([i, b], z3.Implies(z3.And(0 <= i, i < k, z3.Select(FSE['dens_has'](es[i]), b)),
+                                         z3.And(z3.Select(d.has, fs_label(FSE['species'](es[i]), b)), z3.Select(d.get, fs_label(FSE['species'](es[i]), b)) == z3.Select(FSE['dens_get'](es[i]), b))),
+                      patterns=[z3.Select(FSE['dens_has'](es[i]), b)])]
+def _fs_only(d, es, k, extra=None):
+    """nothing else is in it"""
+    K = z3.String('K!fo'); i = z3.Int('i!fo'); b = z3.String('b!fo')
+    ex = z3.Exists([i, b], z3.And(0 <= i, i < k, z3.Select(FSE['dens_has'](es[i]), b), K == fs_label(FSE['species'](es[i]), b)))
+    return [z3.ForAll([K], z3.Implies(z3.Select(d.has, K), z3.Or(ex, extra(K)) if extra else ex), patterns=[z3.Select(d.has, K)])]
+def _fs_inv0(v, old): return _fs_done(v.pot_dict, x_eams(v.self), v._i0) + _fs_only(v.pot_dict, x_eams(v.self), v._i0)
+def _fs_inv1(v, old):
+    es = x_eams(v.self); k = v._i0; p = es[k]; lst = keys_of(FSE['dens_has'](p)); j = z3.Int('j!f1'); d = v.pot_dict
+    cur = [z3.ForAll([j], z3.Implies(z3.And(0 <= j, j < v._i1), z3.And(z3.Select(d.has, fs_label(FSE['species'](p), lst[j])),
+                                                                       z3.Select(d.get, fs_label(FSE['species'](p), lst[j])) == z3.Select(FSE['dens_get'](p), lst[j]))), patterns=[lst[j]])]
+    return _fs_done(d, es, k) + cur + _fs_only(d, es, k, extra=lambda K: z3.Exists([j], z3.And(0 <= j, j < v._i1, K == fs_label(FSE['species'](p), lst[j])))) + [v.species_f == FSE['species'](p)]
+def _fs_post(v, old, res):
+    es = x_eams(v.self); d = v.pot_dict; keys = v.column_heads; ws0 = z3.Const('created!fs', WS)
+    return (_fs_done(d, es, z3.Length(es)) + _fs_only(d, es, z3.Length(es)) + [keys == BE_.sorted_strs(d.has)] +
+            [z3.Exists([ws0], z3.And(*(_fresh_sheet(ws0, z3.StringVal('EAM-Density')) + populated(v.ws, ws0, z3.StringVal('r'), grid_seq(x_cut(v.self), x_nr(v.self), x_nr(v.self)), keys, d.get))))])
+REG.add_class(ClassDecl(F_ET, 'Excel_FinnisSinclair_EAMTabulation', {}, bases=['Excel_EAMTabulation_W']))
+REG.add(Contract(F_ET, 'Excel_FinnisSinclair_EAMTabulation._add_eam_density', params=[('self', T.Obj('Excel_EAMTabulation_W')), ('wb', T.Obj('Workbook'))],
+    requires=_fs_pre, ensures=_fs_post,
+    post_names=['every-declared-A->B-density-is-stored-under-the-label-A->B', 'no-other-label', 'columns-are-the-sorted-labels', 'sheet-EAM-Density-filled-with-them-on-the-r-grid'],
+    invariants={0: _fs_inv0, 1: _fs_inv1}, ghost={'pot_dict': T.Dict(T.Str, T.Fn)}, definitions=lambda: sheet_axioms() + title_axioms() + BE_.sorted_axioms(), on_raise=lambda v, old: [],
+    carries=['post', 'preserve/0', 'preserve/1'], props=['C04', 'C19']))
